@@ -339,13 +339,13 @@ def render_src(spec, modpath, pkgname="src"):
     s = spec["src"]
     mp = spec.get("mapper")
     body = ["package " + pkgname, ""]
-    need_dest = bool(spec.get("manual")) or any(mentions_pkg(t, "dest") for t in all_types(spec) if True) and (
+    need_dest = bool(spec.get("manual")) or any(mentions_pkg(t, "dest") for c_ in [spec.get("companion")] if c_ for _, a, b in c_["pairs"] for t in (a, b)) or any(mentions_pkg(t, "dest") for t in all_types(spec) if True) and (
         any(mentions_pkg(m["type"], "dest") for _, m in leaves(s)) or
         (mp and any(mentions_pkg(f["param"], "dest") or mentions_pkg(f["result"], "dest") for f in mp["funcs"])))
     imps = []
     if need_dest:
         imps.append('"%s/dest"' % modpath)
-    if mp and mp["funcs"]:
+    if (mp and mp["funcs"]) or spec.get("companion"):
         imps.append('"verifcases/vo"')
     if imps:
         body.append("import (\n\t" + "\n\t".join(imps) + "\n)\n")
@@ -355,10 +355,22 @@ def render_src(spec, modpath, pkgname="src"):
             recv = ("*" if mp.get("recvptr") else "") + mp["name"]
             pt, rt = go_type(f["param"], "src"), go_type(f["result"], "src")
             body.append("func (%s) %s(x %s) %s { return vo.MapFn[%s, %s](x, %d) }\n" % (recv, f["name"], pt, rt, pt, rt, k))
+    comp = spec.get("companion")
+    if comp:
+        # a companion type that is processed BEFORE the observed one in the same run: it embeds a mapper whose method
+        # signatures coincide with pairs of the observed type (which must not see them)
+        body.append("type CMapper struct{}\n")
+        for k, (n, a, b) in enumerate(comp["pairs"]):
+            pt, rt = go_type(a, "src"), go_type(b, "src")
+            body.append("func (CMapper) Cn%d(x %s) %s { return vo.MapFn[%s, %s](x, 4) }\n" % (k, pt, rt, pt, rt))
+        body.append("type Comp struct {\n\tCMapper\n" + "".join("\tX%d %s\n" % (k, go_type(a, "src")) for k, (n, a, b) in enumerate(comp["pairs"])) + "}\n")
     top = dict(s)
     if mp:
         top = dict(s, members=[{"k": "e", "decl": {"name": mp["name"], "members": [], "kind": "plain"}, "ptr": mp["ptr"]}] + s["members"])
-    body.append(render_struct(top, "src"))
+    txt = render_struct(top, "src")
+    if comp and comp.get("disabled_embed"):
+        txt = txt.replace("struct {\n", "struct {\n\tCMapper `map:\"-\"`\n", 1)      # embedded but opted out: its methods are reachable
+    body.append(txt)
     body.append("")
     man = spec.get("manual")
     if man:
@@ -381,7 +393,11 @@ def render_src(spec, modpath, pkgname="src"):
 
 def render_dest(spec):
     d = spec["dest"]
-    body = ["package dest", "", render_struct(d, "dest"), ""]
+    body = ["package dest", ""]
+    comp = spec.get("companion")
+    if comp:
+        body.append("type Comp struct {\n" + "".join("\tX%d %s\n" % (k, go_type(b, "dest")) for k, (n, a, b) in enumerate(comp["pairs"])) + "}\n")
+    body += [render_struct(d, "dest"), ""]
     for e in embed_decls(d):
         body.append(render_struct(e, "dest"))
         body.append("")
@@ -448,7 +464,17 @@ def make_case(cid, spec, masks=None, fmasks=None, roundtrip=False, prop="C05"):
         runs.append({"args": map_args(helper, "Sub"), "cwd": "src"})
     if need_item:
         runs.append({"args": map_args(helper, "Item"), "cwd": "src"})
-    runs.append({"args": map_args(spec, spec["sname"], spec["dname"]), "cwd": "src"})
+    top_args = map_args(spec, spec["sname"], spec["dname"])
+    comp = spec.get("companion")
+    if comp:
+        top_args = [a for a in top_args if not a.startswith("-type=") and not a.startswith("-to=")]
+        if comp.get("mode") == "file":
+            top_args.append("-file=s.go")
+        else:
+            if spec["sname"] != spec["dname"]:
+                top_args.append("-to=Comp," + spec["dname"])
+            top_args.append("-type=Comp," + spec["sname"])
+    runs.append({"args": top_args, "cwd": "src"})
     to, frm = method_names(spec)
     oracle = ORACLE_TMPL % {"pkg": pkg, "mod": mod, "s": spec["sname"], "d": spec["dname"], "to": to, "from": frm,
                             "masks": go_strs(masks or []), "fmasks": go_strs(fmasks or []),
@@ -1113,6 +1139,31 @@ def normalize_bool(spec, d):
     return d
 
 
+def add_companion(rng, spec, file_mode=0.0, disabled=0.5):
+    """multi-type run: a companion type `Comp` (with its own mapper type) is generated BEFORE the observed type; its mapper
+    methods have exactly the types of name-matched pairs of the observed type, which has no mapper of its own"""
+    if spec.get("mapper") or spec["src"]["kind"] == "new":
+        return spec
+    dtop = {m["name"]: m for m in spec["dest"]["members"] if m["k"] == "f"}
+    bad = {BOOL, P(BOOL)}
+    pairs = []
+    for m in spec["src"]["members"]:
+        if m["k"] != "f" or m.get("tag") is not None or m["name"] not in dtop:
+            continue
+        a, b = m["type"], dtop[m["name"]]["type"]
+        if {a, b} & bad or elem_struct(a) or elem_struct(b) or mentions_pkg(b, "src") or (a, b) in [(x, y) for _, x, y in pairs]:
+            continue
+        pairs.append((m["name"], a, b))
+    if not pairs:
+        return spec
+    pairs = pairs[:2]
+    mode = "list"
+    if rng.random() < file_mode and spec["sname"] == spec["dname"] and not embed_decls(spec["src"]) and spec["dest"]["kind"] != "new":
+        mode = "file"
+    spec["companion"] = {"pairs": pairs, "disabled_embed": rng.random() < disabled, "mode": mode}
+    return spec
+
+
 def count_features(spec, feats=None):
     feats = feats if feats is not None else {}
 
@@ -1126,6 +1177,8 @@ def count_features(spec, feats=None):
         inc("flag-alias")
     if spec["sname"] != spec["dname"]:
         inc("flag-to")
+    if spec.get("companion"):
+        inc("companion-" + spec["companion"]["mode"] + ("-disabled-embed" if spec["companion"]["disabled_embed"] else ""))
     if spec.get("mapper"):
         inc("mapper-ptr" if spec["mapper"]["ptr"] else "mapper-val")
         inc("mapper-funcs-%d" % min(len(spec["mapper"]["funcs"]), 3))
